@@ -1,4 +1,6 @@
 pub mod ast;
+pub mod budget;
+pub mod dlengine;
 pub mod driver;
 pub mod faults;
 pub mod gen;
@@ -90,6 +92,8 @@ fn check(property: &str, tier: &str, seed: u64, threads: usize, runs: Option<usi
             };
             driver::run_check(&e, &mk(q, t)).exit_code
         }
+        "C05" => driver::run_check(&dlengine::DlEngine, &mk(20000, 2_000_000)).exit_code,
+        "C10" => driver::run_check(&budget::BudgetEngine, &mk(4000, 400_000)).exit_code,
         other => {
             eprintln!("HARNESS: no check for property {other}");
             2
@@ -115,6 +119,8 @@ fn replay(path: &str, verif_dir: &str) -> i32 {
     let property = doc["property"].as_str().unwrap_or("").to_string();
     match doc["engine"].as_str().unwrap_or("") {
         "world" => driver::replay(&worldengine::WorldEngine::new(&property), &doc, verif_dir),
+        "datalog" => driver::replay(&dlengine::DlEngine, &doc, verif_dir),
+        "budget" => driver::replay(&budget::BudgetEngine, &doc, verif_dir),
         other => {
             eprintln!("HARNESS: unknown engine {other}");
             2
